@@ -67,13 +67,14 @@ class Sim:
         L.simgomp_trace_len.restype = ctypes.c_uint64
         L.simgomp_ctrace_len.restype = ctypes.c_uint64
         L.simgomp_replay_diverged.restype = ctypes.c_uint64
+        L.simgomp_nested_multi.restype = ctypes.c_uint64
         L.simgomp_get_trace.argtypes = [ctypes.c_void_p, ctypes.c_void_p]
         L.simgomp_set_replay.argtypes = [ctypes.c_void_p, ctypes.c_uint64, ctypes.c_void_p, ctypes.c_uint64]
         self.is_trace = bool(L.simgomp_is_trace_build())
         self._keep = None
         self._syms = None
 
-    def begin(self, seed, nthreads=1, strategy="rtc_id", chunk_shuffle=0, preempt_mean=0, window_pct=100, poison=0, record=False, max_steps=0, replay=None, window_fn=0, team_limit=0, detect=False):
+    def begin(self, seed, nthreads=1, strategy="rtc_id", chunk_shuffle=0, preempt_mean=0, window_pct=100, poison=0, record=False, max_steps=0, replay=None, window_fn=0, team_limit=0, detect=False, nested=0):
         cfg = SimCfg(
             int(nthreads),
             STRATS.index(strategy) if isinstance(strategy, str) else int(strategy),
@@ -85,7 +86,7 @@ class Sim:
             int(team_limit),
             int(max_steps),
             int(window_fn),
-            1 if detect else 0,
+            (1 if detect else 0) | ((int(nested) & 0xFF) << 8),
         )
         self.lib.simgomp_begin(ctypes.c_uint64(seed & ((1 << 64) - 1)), ctypes.byref(cfg))
         if replay is not None:
@@ -103,6 +104,7 @@ class Sim:
         out["error"] = ERRS.get(code, str(code))
         out["error_msg"] = buf.value.decode(errors="replace")
         out["replay_diverged"] = int(self.lib.simgomp_replay_diverged())
+        out["nested_multi"] = int(self.lib.simgomp_nested_multi())
         self._keep = None
         return out
 
